@@ -345,12 +345,16 @@ pub fn real_sockets(rep: &mut Report) {
                     Ok(t) => t,
                     Err(_) => continue,
                 };
-                for kind in ["udp", "tcp"] {
+                for kind in ["udp", "tcp", "http"] {
                     rep.evaluations += 1;
                     rep.distinct.insert(hash_of(&(r, w, c, kind)));
                     let res = catch_unwind(AssertUnwindSafe(|| {
                         if kind == "udp" {
                             gamedig::protocols::quake::two::query(&uaddr, Some(t)).map(|_| ()).map_err(|e| e.kind)
+                        } else if kind == "http" {
+                            // the HTTP client (Eco) takes its timeouts from the same settings; the peer answers with bytes that
+                            // are no HTTP response and closes: an error, promptly, whatever the durations
+                            gamedig::games::eco::query_with_timeout(&taddr.ip(), Some(taddr.port()), &Some(t)).map(|_| ()).map_err(|e| e.kind)
                         } else {
                             gamedig::games::minecraft::protocol::query_legacy_specific(gamedig::games::minecraft::LegacyGroup::V1_4, &taddr, Some(t))
                                 .map(|_| ())
